@@ -222,6 +222,12 @@ def run_case(spec):
             if not np.allclose(a_work.points, r.points, rtol=0, atol=1e-12 * scale * max(1, fac)):
                 viol("inplace_ne_noninplace", {"op": name})
             check_stored(a_work, name + "_inplace")
+        # set operations without operands are copies too
+        for nm, fn in (("union()", a.union), ("intersection()", a.intersection), ("difference()", a.difference)):
+            r0 = fn()
+            cnt("aliasing_checks")
+            if r0 is a or np.shares_memory(r0.points, a.points) or not np.array_equal(r0.points, a.points):
+                viol("empty_setop_aliases_operand", {"op": nm})
         # copy
         c = a.copy()
         cnt("aliasing_checks")
@@ -244,6 +250,10 @@ def run_case(spec):
                 holes.append(tdgl.Polygon(f"h{k}", points=rand_shape(rng, 0.04 * ext / 1.0, center=tuple(hc.tolist()))))
             layer = tdgl.Layer(coherence_length=1.0, london_lambda=2.0, thickness=0.1)
             probes = None
+            # probe points inside the film, away from the holes
+            cand = np.array([cen + np.array([0.0, 0.33 * ext]), cen + np.array([0.0, -0.33 * ext])])
+            inf_c, _ = inside(cand, film.points)
+            probes = cand if inf_c.all() else None
             dev = tdgl.Device("d", layer=layer, film=film, holes=holes, probe_points=probes)
             cnt("device_membership_checks")
             inf, df = inside(P, film.points)
@@ -271,6 +281,16 @@ def run_case(spec):
                 viol("device_copy_aliases_polygons", {})
             fx, fy = float(rng.choice([-1, 1]) * rng.uniform(0.5, 2)), float(rng.choice([-1, 1]) * rng.uniform(0.5, 2))
             d3 = dev.scale(xfact=fx, yfact=fy)
+            if probes is not None:
+                # probe points map with the shapes, also about an origin other than (0, 0)
+                org = (float(rng.uniform(-2, 2) * scale), float(rng.uniform(-2, 2) * scale))
+                for nm, dd_, mp in (("scale_origin", dev.scale(xfact=fx, yfact=fy, origin=org), lambda X: (X - np.array(org)) * np.array([fx, fy]) + np.array(org)),
+                                    ("scale", d3, lambda X: X * np.array([fx, fy])),
+                                    ("translate", dev.translate(0.3 * scale, -0.2 * scale), lambda X: X + np.array([0.3 * scale, -0.2 * scale]))):
+                    cnt("device_transform_checks")
+                    want_p = mp(np.asarray(probes))
+                    if dd_.probe_points is None or np.max(np.abs(np.asarray(dd_.probe_points) - want_p)) > 1e-9 * scale * max(1, abs(fx), abs(fy)):
+                        viol("device_probe_points_do_not_map_with_shapes", {"op": nm, "origin": org if nm == "scale_origin" else None})
             d4 = dev.rotate(float(rng.uniform(-180, 180)))
             d5 = dev.translate(float(rng.uniform(-1, 1) * scale), float(rng.uniform(-1, 1) * scale))
             if not np.array_equal(dev.film.points, f0) or any(not np.array_equal(h.points, x) for h, x in zip(dev.holes, h0)):
